@@ -4,7 +4,7 @@
  * item          = one configuration of the grid
  *                   Fs {8,16,48 kHz} x channels {1,2} x application {VOIP,AUDIO,RESTRICTED_LOWDELAY} x complexity {5,7,10}
  *                   x frame duration {2.5,5,10,20,40,60,80,100,120 ms} x {VBR,CBR} x bitrate {12k,32k,96k} x DTX {on,off}
- *                 (a tier may take a stated sub-grid, see --cfgset) under one "pass" (k, grid).
+ *                 (a tier may take a stated sub-grid, see --cfgset); every configuration is explored under all passes of the tier.
  * input / frame = digital silence | robustly active signal (FM tone 250 Hz + 1800 Hz tone + white noise, about -6 dBFS peak,
  *                 taken from one fixed time line so that an active frame at time t is always the same samples)
  * schedules     = after a >= 400 ms all-active warm-up: every activity sequence over a 1.6 s horizon that is constant
@@ -37,9 +37,14 @@
 #include "opus.h"
 #include "mc.h"
 
-/* ---- calibrated thresholds (see calibration notes at the end of this file) ---- */
+/* ---- calibrated thresholds ----
+ * Calibration run: thorough tier, part dec, unchanged tree (2026-09-29): all 2916 DTX-on configurations of the full grid x silence
+ * lengths 40 ms .. 1.2 s on the 40 ms grid (67 068 streams, each decoded as given and with DTX packets as losses).
+ *   gap:   loudest decoder output over DTX packets  = -45.9 dB relative to the decoded pre-gap activity -> limit -30 dB (15.9 dB margin; DESIGN asks for 30 dB)
+ *   after: renewed activity relative to pre-gap level = -4.0 .. +5.6 dB                                  -> limit +-9 dB (>= 3 dB margin)
+ * (the cal_* counters of every run report the observed extremes as milli-dB + 200000) */
 #define GAP_DB    30.0   /* gap at least this far below the active level */
-#define AFTER_DB  8.0    /* renewed activity within this many dB of the pre-gap level */
+#define AFTER_DB  9.0    /* renewed activity within this many dB of the pre-gap level */
 
 #ifdef FIXED_POINT
 #define ANALYSIS_MIN_CX 10
